@@ -713,7 +713,7 @@ def state_correspondence(R, rng, backend, nseq, nops, tmpdir):
     model = run_driver("persist", all_lines)
     skip = False
     start = 0
-    ghost = {"silent_nonempty": 0, "gone_nonempty": 0, "gone_touched": 0}
+    ghost = {"silent_nonempty": 0}
     for i, (ln, r, m) in enumerate(zip(all_lines, all_reals, model)):
         if ln.startswith("reset"):
             skip, start = False, i
@@ -733,12 +733,8 @@ def state_correspondence(R, rng, backend, nseq, nops, tmpdir):
             continue
         if ln == "dump":
             m, _, g = m.partition(" ghost=")
-            if not g.startswith("[]"):
+            if g != "[]":
                 ghost["silent_nonempty"] += 1
-            if "][]" not in g:
-                ghost["gone_nonempty"] += 1
-            if g.endswith("T"):
-                ghost["gone_touched"] += 1
         elif r is not None:
             o = r if r.startswith("err") else r.split()[0]
             outcomes[ln.split()[0] + ":" + o] = outcomes.get(ln.split()[0] + ":" + o, 0) + 1
@@ -782,7 +778,7 @@ def replay_none_key(R):
     before = (st.lookup_oid(1, None), st.lookup_path(1, None, stale=True))
     st2 = fresh_state(R, st_)
     after = (st2.lookup_oid(1, None), st2.lookup_path(1, None, stale=True), st2.lookup_path(0, None))
-    fails = before == (None, []) and after[0] is not None and len(after[1]) == 1 and len(after[2]) == 1
+    fails = not (before == (None, []) and after == (None, [], []))
     return fails, {"ops": ["new file", "ent[0].oid='a'", "storage_commit", "reload"], "lookup_oid(REMOTE, None)":
                    {"live": repr(before[0]), "reloaded": repr(after[0])}}
 
@@ -798,7 +794,7 @@ def replay_pending(R):
     live = len(st._changeset_storage)
     st2 = fresh_state(R, st_)
     rel = len(st2._changeset_storage)
-    return live == 0 and rel == 1, {"ops": ["new file", "ent[0].oid='a'", "ent[1].changed=5", "storage_commit", "reload"],
+    return live != rel, {"ops": ["new file", "ent[0].oid='a'", "ent[1].changed=5", "storage_commit", "reload"],
                                     "pending": {"live": live, "reloaded": rel}}
 
 
@@ -814,16 +810,28 @@ def replay_stale_id(R, tmpdir):
         b[0].hash = "x"; st.storage_commit()
         ids = sorted(sq.read_all(TAG))
         live = [e[0].oid for e in (a, b, c) if not e.is_trash]
-        fails = ids == [1] and live == ["a", "c"] and b.storage_id == c.storage_id == 2
         c[0].path = "/c"
         try:
             st.storage_commit()
             raised = None
         except ValueError as ex:
             raised = "ValueError"
+        # the MockStorage variant (no id reuse): a trash entry that comes back to life
+        ms = R.MockStorage({})
+        st2 = fresh_state(R, ms)
+        d = R.SyncEntry(st2, R.OType("file")); d[0].oid = "a"; st2.storage_commit()
+        d[0].oid = None; st2.storage_commit()
+        d[0].oid = "a"
+        try:
+            st2.storage_commit()
+            raised2 = None
+        except ValueError as ex:
+            raised2 = "ValueError"
+        fails = not (ids == [1, 2] and live == ["a", "c"] and raised is None and raised2 is None and len(ms.read_all(TAG)) == 1)
         return fails, {"backend": "SqliteStorage", "ops": ["A.oid='a';commit", "B.oid='b';commit", "B.oid=None;commit", "C.oid='c';commit",
-                                                           "B.hash='x';commit"], "row ids": ids, "live non-trash": live,
-                       "storage ids": [a.storage_id, b.storage_id, c.storage_id], "next commit of C": raised}
+                                                           "B.hash='x';commit", "C.path='/c';commit"], "row ids": ids, "live non-trash": live,
+                       "storage ids": [a.storage_id, b.storage_id, c.storage_id], "last commit": raised,
+                       "MockStorage: e.oid='a';commit; e.oid=None;commit; e.oid='a';commit": raised2}
     finally:
         sq.close()
 
@@ -840,7 +848,7 @@ def replay_int_key(R):
     st.storage_commit()
     rows_before = len(d.get(TAG, {}))
     st2 = fresh_state(R, ms)
-    return rows_before == 1 and len(d.get(TAG, {})) == 0 and st2.lookup_oid(0, "a") is None, {
+    return not (rows_before == 1 and len(d.get(TAG, {})) == 1 and st2.lookup_oid(0, "a") is not None), {
         "ops": ["new file", "ent[0].oid='a'", "ent[0].hash={1: 2}", "storage_commit", "reload"], "rows before reload": rows_before,
         "rows after reload": len(d.get(TAG, {})), "lookup_oid(LOCAL,'a') after reload": repr(st2.lookup_oid(0, "a"))}
 
@@ -1013,22 +1021,20 @@ def oracle_roundtrip(R, rng, n):
     return None
 
 
-def rows_vs_live(R, storage, ents, silent, gone):
-    """the conclusion of `commit_makes_storage_exact_partial` on the implementation; None or a failure text"""
+def rows_vs_live(R, storage, ents, silent):
+    """the conclusion of `commit_makes_storage_exact` on the implementation; None or a failure text"""
     rows = {k: R.unpack(v) for k, v in storage.read_all(TAG).items()}
     owners = {}
     for i, e in enumerate(ents):
         if i in silent:
-            if e.storage_id is not None and i not in gone:
+            if e.storage_id is not None:
                 owners.setdefault(e.storage_id, i)
             continue
         sid = e.storage_id
         if e.is_trash:
-            if i not in gone and sid is not None:
-                return "entry %d is trash but keeps row %r" % (i, sid)
+            if sid is not None:
+                return "entry %d is trash but keeps the storage id %r" % (i, sid)
             continue
-        if i in gone:
-            return None          # a deleted entry came back: outside the theorem's hypothesis (known finding)
         if sid is None or sid not in rows:
             return "live entry %d (%s) has no row" % (i, enc_entry(e)[:200])
         want = R.unpack(e.serialize())
@@ -1055,6 +1061,18 @@ def gen_oracle_ops(R, rng, nops):
     ops = []
     for _ in range(rng.randint(4, nops)):
         r = rng.random()
+        if r < 0.06:
+            # a cluster: two or three entries that share a (side, path) under different ids, one of them possibly
+            # discarded/conflicted, then a commit (index -1 = the entry created last)
+            sd, path = rng.choice([0, 0, 1]), rng.choice([p for p in PATHS if p])
+            for oid in rng.sample(["a", "b", "c", "d", "é"], rng.choice([2, 2, 3])):
+                ops.append(("new", rng.choice(["file", "dir"])))
+                if rng.random() < 0.4:
+                    ops.append(("we", -1, "ignored", R.IgnoreReason(rng.choice(["discarded", "conflict", "irrelevant"]))))
+                ops.append(("ws", -1, sd, "oid", oid))
+                ops.append(("ws", -1, sd, "path", path))
+            ops.append(("commit",))
+            continue
         if not ops or r < 0.12:
             ops.append(("new", rng.choice(["file", "dir"])))
         elif r < 0.78:
@@ -1085,13 +1103,13 @@ def show_op(op):
 
 
 def run_oracle_ops(R, H, ops):
-    """one sequence on a fresh real SyncState; the statement of `commit_makes_storage_exact_partial` after every commit and
-    the reload statements after every commit at which nothing is silently changed.  Entry indices are taken modulo the
-    number of entries; a write aimed at an entry whose row was deleted is skipped (the theorem's hypothesis); a run in
-    which a hooked write raises is abandoned there (the hook may have written fields before the exception)."""
+    """one sequence on a fresh real SyncState; the statement of `commit_makes_storage_exact` after every commit,
+    `commit_raises_only_overflow`, and the reload statements after every commit at which nothing is silently changed.
+    Entry indices are taken modulo the number of entries; a run in which a hooked write raises is abandoned there (the
+    hook may have written fields before the exception)."""
     corrupt = R.Exists("corrupt")
     H.reset()
-    silent, gone = set(), set()
+    silent = set()
     done = []
     for op in ops:
         n = len(H.ents)
@@ -1102,8 +1120,6 @@ def run_oracle_ops(R, H, ops):
             if n == 0:
                 continue
             i = op[1] % n
-            if i in gone:
-                continue
             ent = H.ents[i]
             add = set()
             if op[0] == "we":
@@ -1112,9 +1128,9 @@ def run_oracle_ops(R, H, ops):
             else:
                 sd, k, v = op[2], op[3], op[4]
                 if k == "path" and v and not ent[sd]._oid:
-                    continue                                   # `assert ent[side].oid` (state.py:815)
+                    continue                                   # `assert ent[side].oid` in _change_path
                 if k == "exists":
-                    # the CORRUPT early returns reach no dirty mark (state.py:115-122)
+                    # the CORRUPT early returns of SideState.__setattr__ reach no dirty mark
                     is_c = ent[sd]._exists == corrupt
                     v_c = isinstance(v, R.Exists) and v == corrupt
                     if (v_c and not is_c) or (not v_c and is_c):
@@ -1122,7 +1138,7 @@ def run_oracle_ops(R, H, ops):
                 if k == "path" and v:
                     other = H.state._paths[sd].get(v, {}).get(ent[sd]._oid)
                     if other is not None and other is not ent:
-                        add.add(H.idx(other))                       # the ousting write (state.py:837)
+                        add.add(H.idx(other))                       # the ousting write of _change_path
                 done.append(show_op(("ws", i) + op[2:]))
                 res_ = H.ws(i, sd, k, v)
             if res_ != "ok":
@@ -1130,23 +1146,19 @@ def run_oracle_ops(R, H, ops):
             dirty = {j for j, e in enumerate(H.ents) if e in H.state._dirtyset}
             silent = (silent | add) - dirty
         else:
-            pre = [(j, e.storage_id, e.is_trash) for j, e in enumerate(H.ents) if e in H.state._dirtyset]
             res_ = H.commit()
             done.append("storage_commit()")
             if res_ != "ok":
                 if res_ == "err OverflowError":
                     return None
-                return {"statement": "storage_commit raises although no entry with a deleted row was touched", "ops": done, "failure": res_}
-            for j, sid, trash in pre:
-                if sid is not None and trash:
-                    gone.add(j)
-            bad = rows_vs_live(R, H.storage, H.ents, silent, gone)
+                return {"statement": "commit_raises_only_overflow", "ops": done, "failure": "storage_commit raised: " + res_}
+            bad = rows_vs_live(R, H.storage, H.ents, silent)
             if bad:
                 return {"statement": "commit_makes_storage_exact", "ops": done, "failure": bad}
             if not silent:
                 bad = reload_check(R, H)
                 if bad:
-                    return {"statement": "reload_equiv (non-None keys, pending set)", "ops": done + ["reload"], "failure": bad}
+                    return {"statement": "reload_equiv", "ops": done + ["reload"], "failure": bad}
     return None
 
 
@@ -1175,61 +1187,75 @@ def oracle_state(R, rng, backend, nseq, nops, tmpdir):
     return None
 
 
+def fields_match(live_e, got):
+    for sd in (0, 1):
+        for f in ROUNDTRIP_FIELDS:
+            a, b = object.__getattribute__(live_e[sd], f), object.__getattribute__(got[sd], f)
+            a = a.value if hasattr(a, "value") else py_norm(a)
+            b = b.value if hasattr(b, "value") else b
+            if not same_value(a, b):
+                return False
+    return got._ignored == live_e._ignored
+
+
 def reload_check(R, H):
-    """after an exact commit: what a state rebuilt from storage finds under a non-None id is (the reloaded image of)
-    a live non-trash entry carrying that id, and every live non-trash entry is found under each of its ids"""
+    """after an exact commit (`reload_equiv_entries`, `reload_none_key_absent`, `reload_pending_spec`, loader spec):
+    the state rebuilt from storage has one entry per live non-trash entry; under a string id it finds the reloaded image
+    of a live entry carrying that id and every live entry is found; under None it finds nothing; `lookup_path` returns
+    exactly the ids of the live entries at that path; pending = rows with a change stamp on a side that has an id"""
     H.capture = []
     try:
         st2 = R.SyncState(R.provs, H.storage, TAG)
     finally:
         loaded, H.capture = H.capture, None
     live = [e for e in H.ents if not e.is_trash]
+    if sorted(e.storage_id for e in loaded) != sorted(x.storage_id for x in live):
+        return "reload built entries for rows %r, the live non-trash entries have rows %r" % (
+            sorted(e.storage_id for e in loaded), sorted(x.storage_id for x in live))
     for sd in (0, 1):
+        name = ("local", "remote")[sd]
+        if st2.lookup_oid(sd, None) is not None:
+            return "lookup_oid(%s, None) returns an entry after reload" % name
+        if st2.lookup_path(sd, None, stale=True):
+            return "lookup_path(%s, None) returns entries after reload" % name
         for e in live:
             k = e[sd]._oid
             if not isinstance(k, str):
                 continue
             got = st2.lookup_oid(sd, k)
             if got is None:
-                return "live entry with %s id %r is not found after reload" % (("local", "remote")[sd], k)
-            cands = [x for x in live if isinstance(x[sd]._oid, str) and x[sd]._oid == k]
-            ok = False
-            for c in cands:
-                if all(same_value(py_norm(object.__getattribute__(c[s], f)) if not hasattr(object.__getattribute__(c[s], f), "value")
-                                  else object.__getattribute__(c[s], f).value,
-                                  object.__getattribute__(got[s], f) if not hasattr(object.__getattribute__(got[s], f), "value")
-                                  else object.__getattribute__(got[s], f).value) for s in (0, 1) for f in ROUNDTRIP_FIELDS) \
-                        and got._ignored == c._ignored:
-                    ok = True
-            if not ok:
-                return "lookup_oid(%d, %r) after reload returns an entry that is no live entry: %s" % (sd, k, enc_entry(got)[:300])
-            p = e[sd]._path
-            if isinstance(p, str) and p:
-                if not any(x[sd]._oid == k for x in st2.lookup_path(sd, p, stale=True)):
-                    return "live entry %r at path %r is not found by lookup_path after reload" % (k, p)
-    # pending set after the reload (`reload_pending_spec`): exactly the rebuilt entries with a truthy change stamp.
-    # (Equality with the *live* pending set is false in both directions on the pinned code: known finding
-    # reload-pending-set-differs, and the live set can keep an entry whose stamps were all cleared by nested hooks.)
-    want = sorted(e.storage_id for e in loaded if e[0]._changed or e[1]._changed)
+                return "live entry with %s id %r is not found after reload" % (name, k)
+            if not any(fields_match(c, got) for c in live if isinstance(c[sd]._oid, str) and c[sd]._oid == k):
+                return "lookup_oid(%s, %r) after reload returns an entry that is no live entry: %s" % (name, k, enc_entry(got)[:300])
+        paths = {e[sd]._path for e in live if isinstance(e[sd]._path, str) and e[sd]._path}
+        for p in sorted(paths):
+            want = sorted({repr(e[sd]._oid) for e in live if e[sd]._path == p and e[sd]._oid is not None})
+            got = sorted({repr(x[sd]._oid) for x in st2.lookup_path(sd, p, stale=True)})
+            if want != got:
+                return "lookup_path(%s, %r, stale=True) after reload returns the ids %s, the live entries at that path have %s" % (
+                    name, p, got, want)
+            vis = [e for e in live if e[sd]._path == p and e[sd]._oid is not None]
+            if len({repr(e[sd]._oid) for e in vis}) == len(vis):
+                want = sorted(repr(e[sd]._oid) for e in vis if not (e.is_discarded or e.is_conflicted))
+                got = sorted(repr(x[sd]._oid) for x in st2.lookup_path(sd, p))
+                if want != got:
+                    return "lookup_path(%s, %r) after reload returns the ids %s, the live non-ignored entries at that path have %s" % (
+                        name, p, got, want)
+    want = sorted(e.storage_id for e in loaded if any(e[s]._changed and e[s]._oid is not None for s in (0, 1)))
     got = sorted(e.storage_id for e in st2._changeset_storage)
     if want != got:
-        return "after reload the pending set holds the entries with storage ids %r, the rows with a change stamp are %r" % (got, want)
-    if sorted(e.storage_id for e in loaded) != sorted(x.storage_id for x in live):
-        return "reload built entries for rows %r, the live non-trash entries have rows %r" % (
-            sorted(e.storage_id for e in loaded), sorted(x.storage_id for x in live))
+        return "after reload the pending set holds the entries with storage ids %r, the rows with a change stamp on a side that has an id are %r" % (got, want)
     return None
 
 
 class EngineChecker:
     """whole-engine oracle: after every successful `storage_commit` of a CloudSync over two mock providers the rows
-    decode exactly to the live non-trash entries (commits that touch an entry whose row was deleted are skipped: known finding)"""
+    decode exactly to the live non-trash entries"""
     def __init__(self, R):
         self.R = R
         self.ents = {}
-        self.gone = set()
         self.violation = None
         self.commits = 0
-        self.skipped = 0
 
     def __enter__(self):
         R, C = self.R, self
@@ -1241,21 +1267,10 @@ class EngineChecker:
             C.ents.setdefault(id(parent), []).append(s)
 
         def commit(st):
-            dirty = list(st._dirtyset)
-            touched = any(id(e) in C.gone for e in dirty)
-            pre = [(e, e.storage_id, e.is_trash) for e in dirty]
             o_commit(st)
-            for e, sid, trash in pre:
-                if sid is not None and trash:
-                    C.gone.add(id(e))
-            if touched:
-                C.skipped += 1
-                return
             C.commits += 1
             if st._storage is not None and C.violation is None:
-                ents = C.ents.get(id(st), [])
-                gone = {i for i, e in enumerate(ents) if id(e) in C.gone}
-                bad = rows_vs_live_engine(R, st, ents, gone)
+                bad = rows_vs_live_engine(R, st, C.ents.get(id(st), []))
                 if bad:
                     C.violation = bad
         R.SyncEntry.__init__, R.SyncState.storage_commit = init, commit
@@ -1265,17 +1280,15 @@ class EngineChecker:
         self.R.SyncEntry.__init__, self.R.SyncState.storage_commit = self.saved
 
 
-def rows_vs_live_engine(R, st, ents, gone):
+def rows_vs_live_engine(R, st, ents):
     rows = {k: R.unpack(v) for k, v in st._storage.read_all(st._tag).items()}
     owners = {}
     for i, e in enumerate(ents):
         sid = e.storage_id
         if e.is_trash:
-            if i not in gone and sid is not None:
-                return "a trash entry keeps row %r" % (sid,)
+            if sid is not None:
+                return "a trash entry keeps the storage id %r" % (sid,)
             continue
-        if i in gone:
-            return None
         if sid is None or sid not in rows:
             return "live entry has no row: %s" % enc_entry(e)[:300]
         want = R.unpack(e.serialize())
@@ -1384,25 +1397,37 @@ def oracle_engine(R, rng, nhist):
 
 
 PINNED_FP = {
- "cloudsync/sync/state.py:SideState.__setattr__": "74d04dc8774d596a", "cloudsync/sync/state.py:SideState._translate_exists": "b7ea164427c87783",
- "cloudsync/sync/state.py:SideState._set_exists": "a645923b932b031b", "cloudsync/sync/state.py:SideState._set_mtime": "f50083c516debfe6",
- "cloudsync/sync/state.py:SideState.uncorrupt": "729c3e46e16bea8f", "cloudsync/sync/state.py:SideState.serialize": "5d9c9afbe70854a7",
- "cloudsync/sync/state.py:SideState.deserialize": "528a105bfbb716af", "cloudsync/sync/state.py:SyncEntry.__init__": "60e7530a459751d8",
- "cloudsync/sync/state.py:SyncEntry.__setattr__": "60d707a83a3705a0", "cloudsync/sync/state.py:SyncEntry.serialize": "b48a25b9869827d8",
- "cloudsync/sync/state.py:SyncEntry.deserialize": "5050be95557aa4c4", "cloudsync/sync/state.py:SyncEntry.__setitem__": "0b1857a6cfae1665",
- "cloudsync/sync/state.py:SyncState.__init__": "86519ab71963226f", "cloudsync/sync/state.py:SyncState.updated": "46bdc375128298a1",
- "cloudsync/sync/state.py:SyncState._change_path": "48476ce0c5af7de5", "cloudsync/sync/state.py:SyncState._update_kids": "55457724333d65e8",
- "cloudsync/sync/state.py:SyncState._change_oid": "8c6fcbc68c25a6c1", "cloudsync/sync/state.py:SyncState.get_kids": "77ced86b1649c2f6",
- "cloudsync/sync/state.py:SyncState.get_all": "5f9264305c04de2d", "cloudsync/sync/state.py:SyncState.lookup_oid": "57c0d900f7ef360b",
- "cloudsync/sync/state.py:SyncState.lookup_path": "6ea36c2d829428f0", "cloudsync/sync/state.py:SyncState.storage_commit": "3b103294ab9aee22",
- "cloudsync/sync/state.py:SyncState._storage_update": "7b7b94ff7d2d6896", "cloudsync/sync/state.py:SyncState.update": "a9e12218df84da09",
- "cloudsync/sync/state.py:SyncState.update_entry": "3329d7262275b71c", "cloudsync/sync/state.py:SyncState.mark_changed": "af5c6b2283cb90b4",
- "cloudsync/types.py:OType": "7587040bd2d1a00c", "cloudsync/types.py:IgnoreReason": "4550da71db5b9962"}
+ "cloudsync/sync/state.py:SideState.__setattr__": "74d04dc8774d596a",
+ "cloudsync/sync/state.py:SideState._translate_exists": "b7ea164427c87783",
+ "cloudsync/sync/state.py:SideState._set_exists": "a645923b932b031b",
+ "cloudsync/sync/state.py:SideState._set_mtime": "f50083c516debfe6",
+ "cloudsync/sync/state.py:SideState.uncorrupt": "729c3e46e16bea8f",
+ "cloudsync/sync/state.py:SideState.serialize": "5d9c9afbe70854a7",
+ "cloudsync/sync/state.py:SideState.deserialize": "528a105bfbb716af",
+ "cloudsync/sync/state.py:SyncEntry.__init__": "60e7530a459751d8",
+ "cloudsync/sync/state.py:SyncEntry.__setattr__": "60d707a83a3705a0",
+ "cloudsync/sync/state.py:SyncEntry.serialize": "b48a25b9869827d8",
+ "cloudsync/sync/state.py:SyncEntry.deserialize": "5db0ed269f6f493b",
+ "cloudsync/sync/state.py:SyncEntry.__setitem__": "0b1857a6cfae1665",
+ "cloudsync/sync/state.py:SyncState.__init__": "ff2c80e5fc942d38",
+ "cloudsync/sync/state.py:SyncState.updated": "db826802657fd707",
+ "cloudsync/sync/state.py:SyncState._change_path": "48476ce0c5af7de5",
+ "cloudsync/sync/state.py:SyncState._update_kids": "55457724333d65e8",
+ "cloudsync/sync/state.py:SyncState._change_oid": "8c6fcbc68c25a6c1",
+ "cloudsync/sync/state.py:SyncState.get_kids": "77ced86b1649c2f6",
+ "cloudsync/sync/state.py:SyncState.get_all": "5f9264305c04de2d",
+ "cloudsync/sync/state.py:SyncState.lookup_oid": "57c0d900f7ef360b",
+ "cloudsync/sync/state.py:SyncState.lookup_path": "6ea36c2d829428f0",
+ "cloudsync/sync/state.py:SyncState.storage_commit": "3b103294ab9aee22",
+ "cloudsync/sync/state.py:SyncState._storage_update": "0372cec96b08e674",
+ "cloudsync/sync/state.py:SyncState.update": "a9e12218df84da09",
+ "cloudsync/sync/state.py:SyncState.update_entry": "3329d7262275b71c",
+ "cloudsync/sync/state.py:SyncState.mark_changed": "af5c6b2283cb90b4",
+ "cloudsync/types.py:OType": "7587040bd2d1a00c",
+ "cloudsync/types.py:IgnoreReason": "4550da71db5b9962",
+}
 
-TABLE_MODULE = "Csverif.Props.C08Writes"
-TABLE_THEOREMS = ["CS.Gen.DirectWrites.direct_writes_audited", "CS.Gen.DirectWrites.no_direct_write_outside_state",
-                  "CS.Gen.DirectWrites.silent_sites_known"]
-TABLE = {"ok": None, "log": "", "rows": [], "audited": []}
+TABLE = {"rows": [], "audited": []}
 
 
 def _parse_rows(text, name):
@@ -1414,7 +1439,8 @@ def _parse_rows(text, name):
 
 
 def regenerate_table():
-    """tools/gen_direct_writes.py on the repo under test, then build the module holding the `decide` theorem"""
+    """tools/gen_direct_writes.py on the repo under test.  The module holding the `decide` theorem
+    (Csverif.Props.C08Writes, listed in lean/obligations/C08.json) is built by common.audit()."""
     tools = os.path.join(VERIF, "tools")
     if tools not in sys.path:
         sys.path.insert(0, tools)
@@ -1426,42 +1452,8 @@ def regenerate_table():
     if old != text:
         with open(out, "w", encoding="utf8") as f:
             f.write(text)
-    os.makedirs(os.path.join(LEAN, ".lake"), exist_ok=True)
-    ok, log = lean_build_module(TABLE_MODULE)
-    TABLE.update({"ok": ok, "log": log, "rows": [tuple(r) for r in rows],
+    TABLE.update({"rows": [tuple(r) for r in rows],
                   "audited": _parse_rows(open(os.path.join(LEAN, "Csverif", "Props", "C08Writes.lean"), encoding="utf8").read(), "audited")})
-    return ok
-
-
-def audit_table():
-    """#print axioms for the theorems of the separately built table module"""
-    if not TABLE["ok"]:
-        return 0, ["generated fact table: Props/C08Writes.lean no longer checks (the private-field write sites of the repo differ "
-                   "from the audited list): new %r, gone %r" % ([r for r in TABLE["rows"] if r not in TABLE["audited"]][:6],
-                                                                  [r for r in TABLE["audited"] if r not in TABLE["rows"]][:6])]
-    adir = os.path.join(LEAN, ".lake", "audit")
-    os.makedirs(adir, exist_ok=True)
-    fn = os.path.join(adir, "AuditT_%s_%d.lean" % (PID, os.getpid()))
-    with open(fn, "w") as f:
-        f.write("import %s\n" % TABLE_MODULE + "".join("#print axioms %s\n" % t for t in TABLE_THEOREMS))
-    p = subprocess.run(["lake", "env", "lean", fn], cwd=LEAN, capture_output=True, text=True, timeout=1800)
-    os.unlink(fn)
-    out = p.stdout + p.stderr
-    good, fails = 0, []
-    import re
-    for t in TABLE_THEOREMS:
-        m = re.search(r"'%s' depends on axioms: \[([^\]]*)\]" % re.escape(t), out)
-        if m:
-            ax = [a.strip() for a in m.group(1).replace("\n", " ").split(",") if a.strip()]
-            if all(a in ALLOWED_AXIOMS for a in ax):
-                good += 1
-            else:
-                fails.append("theorem %s depends on disallowed axioms %s" % (t, ax))
-        elif re.search(r"'%s' does not depend on any axioms" % re.escape(t), out):
-            good += 1
-        else:
-            fails.append("theorem %s missing or does not check" % t)
-    return good, fails
 
 
 def run(res, tier, seed, proof_broken, replay):
@@ -1471,11 +1463,10 @@ def run(res, tier, seed, proof_broken, replay):
     tmpdir = tempfile.mkdtemp(prefix="c08_", dir="/dev/shm" if os.path.isdir("/dev/shm") else None)
     try:
         broken = list(proof_broken)
-        tgood, tfails = audit_table()
-        res.coverage["obligations"] = res.coverage.get("obligations", 0) + len(TABLE_THEOREMS)
-        res.coverage["discharged"] = res.coverage.get("discharged", 0) + tgood
-        res.coverage["theorems"] = list(res.coverage.get("theorems", [])) + TABLE_THEOREMS
-        broken += tfails
+        if TABLE["rows"] != TABLE["audited"]:
+            broken.append("generated fact table: the private-field write sites of the repo differ from the audited list of "
+                          "Props/C08Writes.lean: new %r, gone %r" % ([r for r in TABLE["rows"] if r not in TABLE["audited"]][:6],
+                                                                       [r for r in TABLE["audited"] if r not in TABLE["rows"]][:6]))
         # 2. known findings / fixed entries, replayed on the real code
         stale = []
         for ident, fn in KNOWN.items():
@@ -1524,7 +1515,7 @@ def run(res, tier, seed, proof_broken, replay):
             "state_lines": total_lines, "unmodelled": sunm, "model_ghost_activity": sghost, "corpus_lines": len(kl),
             "fingerprints": fps, "fingerprints_changed": changed_fp, "escalated": bool(changed_fp) and tier == "quick",
             "stale_known_findings": stale, "model_facts_confirmed_on_code": facts,
-            "direct_write_sites": len(TABLE["rows"]), "fact_table_checks": bool(TABLE["ok"]),
+            "direct_write_sites": len(TABLE["rows"]), "fact_table_equals_audited": TABLE["rows"] == TABLE["audited"],
         })
         res.assumptions += [
             "msgpack byte encoding, SQLite and CPython's dict/enum semantics are trusted; msgpack is modelled at the value level (lists->tuples, "
